@@ -130,7 +130,9 @@ class PositionHlCommander:
         """
         if self._is_flying:
             landing_height = self._landing_height(landing_height)
-            duration_s = (self._z - landing_height) / self._velocity(velocity)
+            # Rounding can leave us a hair below the landing height (for instance after down()
+            # to that height), a negative duration would make time.sleep() raise before the stop
+            duration_s = max(0.0, (self._z - landing_height) / self._velocity(velocity))
             self._hl_commander.land(landing_height, duration_s)
             time.sleep(duration_s)
             self._z = landing_height
